@@ -200,7 +200,7 @@ func c01bGen(t *rapid.T) c01bCase {
 	c.Queue = rapid.SampledFrom([]int{1, 2, 8, 100}).Draw(t, "queue")
 	c.FlushMS = rapid.SampledFrom([]int{0, 1}).Draw(t, "flush")
 	c.Snappy = rapid.IntRange(0, 3).Draw(t, "snappy") == 0
-	family := []string{"t", "t-", "t.", "t0", "tt", "ns:t", "ns:t-", "s"}
+	family := []string{"t", "t-", "t.", "t0", "tt", "ns:t", "ns:t-", "s", "ns:tt", "ns:at", "ns:ta", "at", "n:t"}
 	nt := rapid.IntRange(1, 4).Draw(t, "ntables")
 	used := map[string]bool{}
 	for i := 0; i < nt; i++ {
@@ -224,11 +224,14 @@ func c01bGen(t *rapid.T) c01bCase {
 		st := c01bStep{Table: tb.Name}
 		if rapid.IntRange(0, 11).Draw(t, "unknown") == 0 {
 			// a table that does not exist but whose name is a neighbour of existing ones
+			var unusedNames []string
 			for _, cand := range family {
 				if !used[cand] {
-					st.Table = cand
-					break
+					unusedNames = append(unusedNames, cand)
 				}
+			}
+			if len(unusedNames) > 0 {
+				st.Table = rapid.SampledFrom(unusedNames).Draw(t, "unknowntable")
 			}
 		}
 		if rapid.IntRange(0, 3).Draw(t, "batch") == 0 {
